@@ -116,6 +116,18 @@ def main(argv=None):
         return 2
     ctx = Ctx(args.root, args.tier, seed)
     report = Report(prop, args.tier, seed, args.root)
+    # wall-clock budget: a tree on which the analysis does not terminate in reasonable time is "cannot decide" (exit 2), never a hang
+    budget = int(os.environ.get("SV_TIME_LIMIT") or (3600 if args.tier == "thorough" else 900))
+    try:
+        import signal
+
+        def _expired(signum, frame):
+            raise AnalysisError(f"no verdict within the time budget of {budget} s (set SV_TIME_LIMIT to change it)")
+
+        signal.signal(signal.SIGALRM, _expired)
+        signal.alarm(budget)
+    except (ImportError, ValueError, AttributeError):
+        pass
     try:
         mod.run(ctx, report)
         run_controls(mod, ctx, report, args)
@@ -141,5 +153,18 @@ def main(argv=None):
         return 2
 
 
+def _main():
+    try:
+        return main()
+    finally:
+        try:
+            import signal
+            signal.alarm(0)
+        except Exception:  # noqa: BLE001
+            pass
+        from . import par
+        par.shutdown()
+
+
 if __name__ == "__main__":
-    sys.exit(main())
+    sys.exit(_main())
